@@ -104,6 +104,8 @@ def run(ctx):
     from .c02 import decscale_rule, freezemap_rule
     decscale_rule(ctx)
     freezemap_rule(ctx)
+    from .c07 import resolution_rules
+    resolution_rules(ctx)
     # the reading primitives hand over exactly the bytes of the value (shared with C03 / C11)
     from . import c11
     c11.slice_rule(ctx)
